@@ -393,7 +393,8 @@ def gen_extras(rng, t, f6=0.0, hyph=None):
         if not lows:
             break
         s = "".join(chr(rng.choice(lows)) for _ in range(rng.randint(1, 3)))
-        out.append(Rule(None, raw="noback match %s %s %s %s" % (rng.choice(MATCH_PATTERNS), s, rng.choice(MATCH_PATTERNS), dots())))
+        out.append(Rule(None, raw="%s %s %s %s %s" % (rng.choice(["noback match", "noback match", "backmatch"]), rng.choice(MATCH_PATTERNS), s,
+                                                     rng.choice(MATCH_PATTERNS), dots())))
     for _ in range(rng.randint(0, 2)):
         if lows:
             out.append(Rule(None, raw="display %s %s" % (chr(rng.choice(lows)), dots_str(rng.randint(1, 63)))))
@@ -511,8 +512,8 @@ def gen_addition(rng, t, i, malformed=0.0, kinds=("def", "trans", "pass", "displ
         return "noback context [%%%s] %%%s" % (nm, nm), "swapref"
     if r < 0.85:
         sx = "".join(chr(rng.choice(lows)) for _ in range(rng.randint(1, 3)))
-        return "noback match %s %s %s %s" % (rng.choice(MATCH_PATTERNS), sx, rng.choice(MATCH_PATTERNS),
-                                              cells_str([rng.choice(cells)])), "match"
+        return "%s %s %s %s %s" % (rng.choice(["noback match", "noback match", "backmatch"]), rng.choice(MATCH_PATTERNS), sx, rng.choice(MATCH_PATTERNS),
+                                    cells_str([rng.choice(cells)])), "match"
     return rng.choice(["letsign 56", "numsign 3456", "nonumsign 56", "nocontractsign 5", "begcomp 456-346", "undefined 3456",
                        "capsletter 6", "begcapsword 6-6", "endcapsword 6-3", "attribute myattr " + "".join(chr(c) for c in lows[:2]),
                        "base uppercase %s %s" % (chr(lows[0] - 32), chr(lows[0]))]), "indicator"
